@@ -53,7 +53,11 @@ class Contract:
             self.loops[o] = sp
         # ghost code: {source text of a statement of the function: [ghost statements run right after it]}
         self.ghost_after = {}
+        self.ghost_prefix = {}
         for k, stmts in (ghost_after or {}).items():
+            if k.endswith("..."):
+                self.ghost_prefix[k[:-3]] = [ast.parse(x).body[0] for x in stmts]
+                continue
             self.ghost_after[ast.unparse(ast.parse(k).body[0])] = [ast.parse(x).body[0] for x in stmts]
         self.ghost_after_src = dict(ghost_after or {})
         # callees executed from their real source (not via their contract) while verifying this function
